@@ -146,7 +146,7 @@ func main() {
 					vi, f := int(i)/nflags(t), int(i)%nflags(t)
 					for pi, pre := range prefixes {
 						sp := spares
-						if pi >= 256 && (f == 0 || f == nflags(t)-1 || f == 64) {
+						if pi >= 256 && (nflags(t) <= 4 || f == 0 || f == nflags(t)-1 || f == 64 || f == 63) {
 							sp = sp[:0]
 							for s := 0; s <= 64; s++ {
 								sp = append(sp, s)
